@@ -205,6 +205,16 @@ def e2(prog, ctx, L):
     else:
         ctx.ok("E2", "location record current wherever an error can arise", rec.where,
                "`last_scanned_line_nr = %s` after `%s++` dominates all %d error points of the loop body" % (line, line, len(points)))
+    # the record can hold any path the file was opened under
+    gv = prog.globals.get("last_scanned_filename")
+    if gv is None or not gv.arr:
+        ctx.inconclusive("E2", "the location record holds a whole path", f.where, "last_scanned_filename is not a fixed array any more")
+    elif gv.arr.get("size", 0) >= 4096:
+        ctx.ok("E2", "the location record holds a whole path", f.where, "last_scanned_filename[%s] = %d bytes" % (gv.arr.get("size_src") or gv.arr.get("size"), gv.arr["size"]))
+    else:
+        ctx.fail("E2", "the location record holds a whole path", f.where,
+                 "last_scanned_filename has %d bytes (%s): the path of a malformed file deeper than that is reported cut off - not the file that was read" % (
+                     gv.arr["size"], gv.arr.get("size_src") or ""), key="loc-buffer")
     # file name recorded before the loop from read_file's own parameter
     fnrec = [c for c in f.calls(("snprintf", "strncpy", "strcpy", "stpcpy")) if c.call_args() and render(c.call_args()[0]) == "last_scanned_filename"]
     if not fnrec:
